@@ -19,6 +19,9 @@
 (*    kept   E15(mobility through the first object's accessors, documented sum) AFTER the caller's reference-     *)
 (*           density dictionary was updated in place and a second object was built from it with another table:   *)
 (*           an object keeps the fluid it was built with                                                          *)
+(*    batch  E15 of mobility / compressibility of a cell evaluated in the full call against the same cell evaluated     *)
+(*           alone (a one-cell call) and as the last cell of the call that holds only the cells up to it: the value    *)
+(*           of a cell does not depend on which other cells are in the call                                            *)
 EXTENDS TraceLib, Quant
 VARIABLES l, h
 Tol == 1000
@@ -28,7 +31,7 @@ C16Rules ==
   [storage |-> [mono |-> NoMono,
                 agreeMax |-> [cdiff |-> A("all"), zero |-> A("all"), slope |-> A("all"), phi |-> A("all"),
                               lam |-> A("all"), alpha |-> A("all"), tab |-> A("all"), intso |-> A("all"),
-                              objlam |-> A("all"), objc |-> A("all"), kept |-> A("all")],
+                              objlam |-> A("all"), objc |-> A("all"), kept |-> A("all"), batch |-> A("all")],
                 mustTrue |-> {},
                 need |-> {"none"}, minPoints |-> 3]]
 INSTANCE SweepCore WITH Rules <- C16Rules
